@@ -18,9 +18,14 @@ import (
 	"encoding/json"
 	"errors"
 	"fmt"
+	"go/ast"
+	"go/parser"
+	"go/token"
 	"os"
 	"os/exec"
 	"path/filepath"
+	"sort"
+	"strconv"
 	"strings"
 
 	"github.com/postalsys/muti-metroo/internal/embed"
@@ -31,7 +36,7 @@ import (
 // case / observation types (JSON, also the replay format)
 
 type kase struct {
-	Kind string `json:"kind"` // "reader" | "roundtrip" | "xor"
+	Kind string `json:"kind"`           // "reader" | "roundtrip" | "xor"
 	File string `json:"file,omitempty"` // hex: whole file content (reader)
 	Bin  string `json:"bin,omitempty"`  // hex: binary (roundtrip)
 	Cfg  string `json:"cfg,omitempty"`  // hex: configuration (roundtrip) / data (xor)
@@ -39,6 +44,15 @@ type kase struct {
 	// roundtrip: how source and destination of AppendConfig (and of the in-place
 	// strip) relate: "" distinct files | same | dst-symlink | dst-hardlink | src-symlink | relative
 	Alias string `json:"alias,omitempty"`
+	// roundtrip with distinct files: what the destination holds BEFORE the embed under test:
+	// PreCfg = a configuration embedded first (re-embed history), Pre = arbitrary previous content
+	PreCfg string `json:"pre_cfg,omitempty"`
+	Pre    string `json:"pre,omitempty"`
+	// sized: binary and configuration given by length only (byte i = i*31+Fill); results are
+	// reduced to booleans in the child, nothing of this size is sent to the model
+	BinLen int    `json:"bin_len,omitempty"`
+	CfgLen int    `json:"cfg_len,omitempty"`
+	Fill   uint64 `json:"fill,omitempty"`
 }
 
 // outcome of one call: Code 0 = ok; 1 ErrNoEmbeddedConfig; 2 ErrConfigTooLarge;
@@ -52,14 +66,14 @@ type outcome struct {
 }
 
 type observed struct {
-	Has    outcome `json:"has"`
-	Read   outcome `json:"read"`
-	Size   outcome `json:"size"`
-	Copy   outcome `json:"copy"`
-	Append outcome `json:"append"` // roundtrip: Data = resulting file
+	Has      outcome `json:"has"`
+	Read     outcome `json:"read"`
+	Size     outcome `json:"size"`
+	Copy     outcome `json:"copy"`
+	Append   outcome `json:"append"`              // roundtrip: Data = resulting file
 	SrcAfter string  `json:"src_after,omitempty"` // roundtrip: hex content of the source file after AppendConfig
 	Strip    outcome `json:"strip"`               // roundtrip: CopyBinaryWithoutConfig onto the embedded file itself; Data = the file afterwards
-	XOR    string  `json:"xor,omitempty"`
+	XOR      string  `json:"xor,omitempty"`
 }
 
 func errCode(err error) int {
@@ -144,6 +158,19 @@ func runCase(dir string, k kase) observed {
 			panic(err)
 		}
 		runReaders(dir, p, &obs)
+	case "sized":
+		bin, cfg := pattern(k.BinLen, k.Fill), pattern(k.CfgLen, k.Fill+7)
+		k2 := kase{Kind: "roundtrip", Bin: hex.EncodeToString(bin), Cfg: hex.EncodeToString(cfg)}
+		o := runCase(dir, k2)
+		// keep verdicts only
+		red := func(oc outcome, want []byte) outcome {
+			r := outcome{Code: oc.Code, Msg: oc.Msg, Int: oc.Int}
+			r.Bool = oc.Code == 0 && oc.Data == hex.EncodeToString(want)
+			return r
+		}
+		whole := append(append(append([]byte{}, bin...), embed.XOR(cfg)...), footer(uint64(len(cfg)), embed.Magic[:])...)
+		obs.Append, obs.Read, obs.Copy, obs.Strip = red(o.Append, whole), red(o.Read, cfg), red(o.Copy, bin), red(o.Strip, bin)
+		obs.Has, obs.Size = o.Has, o.Size
 	case "roundtrip":
 		// two names for AppendConfig; with an alias mode they designate one file
 		os.RemoveAll(filepath.Join(dir, "rt"))
@@ -171,6 +198,13 @@ func runCase(dir string, k kase) observed {
 		must(os.WriteFile(real, unhex(k.Bin), 0o755))
 		if k.Alias == "dst-hardlink" {
 			must(os.Link(src, dst))
+		}
+		if k.Alias == "" {
+			if k.PreCfg != "" {
+				_ = embed.AppendConfig(src, dst, unhex(k.PreCfg)) // an earlier embed onto the same destination
+			} else if k.Pre != "" {
+				must(os.WriteFile(dst, unhex(k.Pre), 0o755))
+			}
 		}
 		obs.Append = call(func() (outcome, error) {
 			if err := embed.AppendConfig(src, dst, unhex(k.Cfg)); err != nil {
@@ -208,6 +242,63 @@ func runCase(dir string, k kase) observed {
 		}
 	}
 	return obs
+}
+
+func pattern(n int, fill uint64) []byte {
+	b := make([]byte, n)
+	for i := range b {
+		b[i] = byte(uint64(i)*31 + fill)
+	}
+	return b
+}
+
+// sizeSweep: binaries and configurations whose sizes lie within 17 bytes of a
+// power of two / page / buffer size, and of every integer constant that occurs
+// in the embed.go under test (a read-ahead or chunk size introduced there shows
+// up here without the harness knowing about it).
+func sizeSweep(thorough bool, r *vh.Rand) []kase {
+	consts := map[int]bool{4096: true, 8192: true, 65536: true}
+	if thorough {
+		for _, v := range []int{256, 512, 1024, 2048, 16384, 32768, 131072} {
+			consts[v] = true
+		}
+	}
+	if repo := os.Getenv("VERIF_REPO"); repo != "" {
+		if fset, f := token.NewFileSet(), (*ast.File)(nil); true {
+			f, _ = parser.ParseFile(fset, filepath.Join(repo, "internal/embed/embed.go"), nil, 0)
+			if f != nil {
+				ast.Inspect(f, func(n ast.Node) bool {
+					if bl, ok := n.(*ast.BasicLit); ok && bl.Kind == token.INT {
+						if v, err := strconv.ParseInt(bl.Value, 0, 64); err == nil && v >= 64 && v <= 1<<20 {
+							consts[int(v)] = true
+						}
+					}
+					return true
+				})
+			}
+		}
+	}
+	var vals []int
+	for v := range consts {
+		vals = append(vals, v)
+	}
+	sort.Ints(vals)
+	var out []kase
+	for _, c := range vals {
+		for d := -17; d <= 17; d++ {
+			n := c + d
+			// the configuration has that size (small and page-sized binary) ...
+			out = append(out, kase{Kind: "sized", BinLen: []int{40, 0, 4096, 5}[(d+17)%4], CfgLen: n, Fill: r.U64() & 0xff, Note: fmt.Sprintf("config size %d%+d", c, d)})
+			// ... the binary has (total file size near the constant as well)
+			if c <= 8192 || thorough {
+				out = append(out, kase{Kind: "sized", BinLen: n, CfgLen: []int{10, 1, 33}[(d+17)%3], Fill: r.U64() & 0xff, Note: fmt.Sprintf("binary size %d%+d", c, d)})
+				if n-16-10 >= 0 {
+					out = append(out, kase{Kind: "sized", BinLen: n - 16 - 10, CfgLen: 10, Fill: r.U64() & 0xff, Note: fmt.Sprintf("file size %d%+d", c, d)})
+				}
+			}
+		}
+	}
+	return out
 }
 
 func must(err error) {
@@ -410,11 +501,26 @@ func main() {
 			if i%2 == 1 { // every second pair embeds and strips in place, through one of the ways two names can mean one file
 				alias = []string{"same", "dst-symlink", "dst-hardlink", "src-symlink", "relative"}[(i/2)%5]
 			}
-			cases = append(cases, kase{Kind: "roundtrip", Bin: hex.EncodeToString(bin), Cfg: hex.EncodeToString(cfg), Alias: alias})
+			k := kase{Kind: "roundtrip", Bin: hex.EncodeToString(bin), Cfg: hex.EncodeToString(cfg), Alias: alias}
+			if alias == "" {
+				// the destination exists already: an earlier embed of a longer / shorter / equally long
+				// configuration from the same binary, or a file of some other length
+				switch (i / 2) % 4 {
+				case 0:
+					k.PreCfg = hex.EncodeToString(r.Bytes(len(cfg) + r.Pick(1, 2, 15, 16, 17, 40)))
+				case 1:
+					k.PreCfg = hex.EncodeToString(r.Bytes(r.Pick(1, 1+len(cfg)/2, len(cfg)+1)))
+				case 2:
+					k.Pre = hex.EncodeToString(r.Bytes(len(bin) + len(cfg) + 16 + r.Pick(0, 1, 8, 16, 17, 64)))
+				}
+			}
+			cases = append(cases, k)
 		}
 		for i := 0; i < nXor; i++ {
 			cases = append(cases, kase{Kind: "xor", Cfg: hex.EncodeToString(r.Bytes(r.Pick(0, 1, 31, 32, 33, 64, 65, 150)))})
 		}
+		// last: these are not sent to the model, the case numbering of cases.v stays a prefix
+		cases = append(cases, sizeSweep(c.Thorough(), r)...)
 	}
 
 	obs := runIsolated(cases)
@@ -422,7 +528,7 @@ func main() {
 	var coq []string
 	for i, k := range cases {
 		o := obs[i]
-		rep := map[string]any{"kind": k.Kind, "file": k.File, "bin": k.Bin, "cfg": k.Cfg, "note": k.Note, "alias": k.Alias, "observed": o}
+		rep := map[string]any{"kind": k.Kind, "file": k.File, "bin": k.Bin, "cfg": k.Cfg, "note": k.Note, "alias": k.Alias, "pre_cfg": k.PreCfg, "pre": k.Pre, "observed": o}
 		switch k.Kind {
 		case "xor":
 			c.Case("xor/"+k.Cfg, len(k.Cfg) > 0, rep)
@@ -441,6 +547,26 @@ func main() {
 			c.Count(fmt.Sprintf("reader/read=%d", o.Read.Code))
 			c.Count(fmt.Sprintf("reader/copy=%d", o.Copy.Code))
 			coq = append(coq, fmt.Sprintf("CReader \"%s\" (%s) %s (%d%%N, (%d)%%Z) %s", k.File, coqHas(o.Has), coqOutcome(o.Read, true), o.Size.Code, o.Size.Int, coqOutcome(o.Copy, true)))
+		case "sized":
+			c.Case(fmt.Sprintf("sized/%d/%d", k.BinLen, k.CfgLen), k.CfgLen > 0, map[string]any{"kind": "sized", "bin_len": k.BinLen, "cfg_len": k.CfgLen, "fill": k.Fill, "note": k.Note, "observed": o})
+			c.Count("sized")
+			for name, oc := range map[string]outcome{"AppendConfig": o.Append, "HasEmbeddedConfig": o.Has, "ReadEmbeddedConfig": o.Read, "GetOriginalBinarySize": o.Size, "CopyBinaryWithoutConfig": o.Copy, "CopyBinaryWithoutConfig (in place)": o.Strip} {
+				if oc.Code == 7 || oc.Code == 8 {
+					c.Fail("embed-reader-panic", fmt.Sprintf("%s panicked / died with a %d-byte binary and a %d-byte config: %s", name, k.BinLen, k.CfgLen, oc.Msg), k)
+				}
+			}
+			if !o.Append.Bool {
+				c.Fail("embed-append-content", fmt.Sprintf("AppendConfig of a %d-byte config onto a %d-byte binary did not produce binary+config+footer (code %d)", k.CfgLen, k.BinLen, o.Append.Code), k)
+			}
+			if k.CfgLen > 0 && !o.Read.Bool {
+				c.Fail("embed-roundtrip-config", fmt.Sprintf("reading back an embedded %d-byte config (binary %d bytes) gave code %d / different bytes", k.CfgLen, k.BinLen, o.Read.Code), k)
+			}
+			if !o.Copy.Bool || !o.Strip.Bool {
+				c.Fail("embed-roundtrip-strip", fmt.Sprintf("stripping a %d-byte config did not give back the %d-byte binary (codes %d, %d)", k.CfgLen, k.BinLen, o.Copy.Code, o.Strip.Code), k)
+			}
+			if !(o.Size.Code == 0 && o.Size.Int == int64(k.BinLen)) {
+				c.Fail("embed-roundtrip-size", fmt.Sprintf("original size %d reported for a %d-byte binary", o.Size.Int, k.BinLen), k)
+			}
 		case "roundtrip":
 			bin, cfg := unhex(k.Bin), unhex(k.Cfg)
 			c.Case("roundtrip/"+k.Alias+"/"+k.Bin+"/"+k.Cfg, len(cfg) > 0, rep)
